@@ -143,4 +143,41 @@ example : ∃ s, ReachableD s ∧ closedNow s.core.trace = false ∧ s.core.trac
         .apiOpen, .run 10 .go, .run 10 .openOk], rfl⟩,
    by decide⟩
 
+/-! ### a new session starts with an empty send queue (/repo 3897b77)
+
+`close()` leaves the send queue alone: messages that were waiting for a connection stay in it, and a sender that was
+suspended in `drain()` when `close()` ran can put its message back (the retry path) after `close()` has returned.  Before
+/repo 3897b77 a later `open_socket()` transmitted those messages on the new session's connection, ahead of the next
+session's handshake.  `open_socket()` on a socket that is not open now empties the queue first. -/
+
+/-- `open_socket()` on a socket that is not open starts the new session with an empty send queue, whatever the earlier
+    session left in it -/
+theorem C15_reopen_starts_empty {s s' : Sys} (_ : Reachable s) (hclosed : s.core.isOpen = false)
+    (h : step s .apiOpen = some s') : s'.core.queue = [] := by
+  simp only [step] at h
+  split at h
+  · rename_i ho
+    rw [show (s.core.emit (.apiOpen s.core.now)).isOpen = s.core.isOpen from rfl, hclosed] at ho
+    cases ho
+  · cases h; rfl
+
+/-- non-vacuity, a message that was waiting for a connection: open (every attempt refused), `send(1)` is accepted and
+    queued, a complete `close()`; the socket is closed (`closedNow`), the entry is still queued; `open_socket()` empties
+    the queue and schedules the connect task -/
+example : ∃ s s', ReachableD s ∧ closedNow s.core.trace = true ∧ s.core.isOpen = false ∧
+    s.core.queue.map (·.sid) = [1] ∧ step s .apiOpen = some s' ∧ s'.core.queue = [] ∧ s'.core.isOpen = true ∧
+    pcAt s' 6 = some .connStart :=
+  ⟨_, _, ⟨[.apiOpen, .run 1 .go, .run 1 .openRefused, .apiSend 1 2 240 true, .apiClose, .run 4 .go, .run 4 .go], rfl⟩,
+    by decide, by decide, by decide, rfl, by decide, by decide, by decide⟩
+
+/-- non-vacuity, the retry path after `close()` has returned: `send(7)` is written and its caller blocks in `drain()` (the
+    transport stopped accepting data); a complete `close()`; only then the blocked caller's `drain()` raises and it puts
+    message 7 back into the queue of the closed socket; `open_socket()` discards it - without the clearing it would be the
+    first frame of the next session -/
+example : ∃ s s', ReachableD s ∧ closedNow s.core.trace = true ∧ s.core.isOpen = false ∧
+    s.core.queue = [⟨7, 1, 100, true, true⟩] ∧ step s .apiOpen = some s' ∧ s'.core.queue = [] :=
+  ⟨_, _, ⟨[.apiOpen, .run 1 .go, .run 1 .openOk, .run 1 .go, .run 2 .go, .envPause 0 true, .apiSend 7 2 100 true,
+          .apiClose, .run 4 .go, .envLostRan 0, .run 4 .go, .run 4 .go, .run 3 .drainErr], rfl⟩,
+    by decide, by decide, by decide, rfl, by decide⟩
+
 end PyAirtouch.Props.C15
